@@ -895,6 +895,17 @@ impl<'a, 'b> Gen<'a, 'b> {
                     }
                 }
             }
+            14 if self.t.chance(1, 6) => {
+                self.tag("stmt-randcase");
+                self.kw("randcase");
+                let n = 1 + self.t.below(3);
+                for _ in 0..n {
+                    self.small_const();
+                    self.sym(":");
+                    self.stmt_or_null(0);
+                }
+                self.kw("endcase");
+            }
             14 if self.t.chance(1, 3) => {
                 self.tag("stmt-method-call");
                 self.method_chain(1);
